@@ -169,6 +169,8 @@ class CallMixin:
             return self.inline_lambda(st, f, args, k)
         if w == "specfn":
             return k(st, f.obj(self, st, *args))
+        if w == "opaque_method":
+            return self.reg.specfns["call_opaque_method"](self, st, f, args, kwargs, k, where)
         raise Unsupported(f"call of {f!r} at {where}")
 
     # ---- calling a source function ---------------------------------------------------------------------
@@ -183,6 +185,9 @@ class CallMixin:
         c = self.contract_of(name)
         raw = kind == "raw"
         if c is not None and not c.inline and not raw:
+            if fi.kind == "classmethod" and args and isinstance(args[0], VPy) and args[0].what == "class" \
+                    and fi.node.args.args[0].arg not in c.params:
+                args = args[1:]
             return self.apply_contract(st, c, args, kwargs, k, where, fi=fi)
         if (c is not None and c.inline) or name in self.reg.inline or raw:
             return self.inline_call(st, fi, args, kwargs, k, where, raw=raw)
@@ -295,6 +300,15 @@ class CallMixin:
         from .front import loops_of
         for i, n in enumerate(loops_of(fi.node)):
             self.loop_ordinal[id(n)] = i
+        counts = {}
+        name = self.short_name(fi) if fi.qualname in self.prog.functions else None
+        if name:
+            for n in ast.walk(fi.node):
+                if isinstance(n, (ast.If, ast.For, ast.While, ast.Try)):
+                    tn = type(n).__name__
+                    counts[tn] = counts.get(tn, 0)
+                    self.region_index[id(n)] = (name, tn, counts[tn])
+                    counts[tn] += 1
 
     def inline_call(self, st, fi, args, kwargs, k, where, raw=False):
         self.depth += 1
@@ -401,7 +415,14 @@ class CallMixin:
                 # demand non-None as a precondition obligation
                 st = self.oblige(st, Not(v.isnone), "pre", f"{c.qualname}:arg-{n}-not-None@{where}")
                 v = v.inner
-            out[n] = self.coerce(st, v, kind)
+            v = self.coerce(st, v, kind)
+            if isinstance(kind, KOpt) and not isinstance(kind.inner, KNone):
+                # give spec expressions a well-kinded value in both cases
+                if v is VNone:
+                    v = VOpt(TRUE, self.fresh_value(st, kind.inner, "none_" + n))
+                elif not isinstance(v, VOpt):
+                    v = VOpt(FALSE, v)
+            out[n] = v
         return st, out
 
     def apply_contract(self, st, c, args, kwargs, k, where, fi=None):
@@ -483,19 +504,58 @@ class CallMixin:
         if loc.startswith("*"):
             cls, fld = loc[1:].rsplit(".", 1)
             return [("field*", cls, fld, None)]
+        if loc.startswith("dyn:"):
+            v = self.unwrap(self.spec_eval(env, loc[4:]))
+            out = []
+            for n in self.class_names_mro(v.cls):
+                m = self.reg.models.get(n)
+                if m:
+                    for f in m.dynamic:
+                        out.append(("field", v, f, None))
+            return out
         for pfx in ("list:", "deque:", "dict:", "set:"):
             if loc.startswith(pfx):
-                v = self.unwrap(self.spec_eval(env, loc[len(pfx):]))
-                return [(pfx[:-1], v, None, None)]
+                v0 = self.spec_eval(env, loc[len(pfx):])
+                v = self.unwrap(v0)
+                if v is VNone:
+                    return []
+                g = Not(v0.isnone) if isinstance(v0, VOpt) else None
+                return [(pfx[:-1], v, None, g)]
         base, fld = loc.rsplit(".", 1)
-        v = self.unwrap(self.spec_eval(env, base))
+        v0 = self.spec_eval(env, base)
+        v = self.unwrap(v0)
+        if v is VNone:
+            return []
         if not isinstance(v, VRef):
             raise RuntimeError(f"modifies location {loc}: base is {v!r}")
-        return [("field", v, fld, None)]
+        g = Not(v0.isnone) if isinstance(v0, VOpt) else None
+        return [("field", v, fld, g)]
 
     def havoc_locations(self, st: State, locs, env: SpecEnv) -> State:
         for loc in locs:
             for item in self.parse_location(env, loc):
+                kind = item[0]
+                guard = item[3]
+                if guard is not None:
+                    # conditional location (through an Optional): havoc on a copy, then merge
+                    before = st
+                    item2 = (item[0], item[1], item[2], None)
+                    after = self._havoc_item(st, item2)
+                    merged = after.copy()
+                    for key, t_after in after.heap.items():
+                        t_before = before.heap.get(key)
+                        if t_before is None:
+                            t_before = self.initial_heap.get(key)
+                        if t_before is not None and t_before.s != t_after.s:
+                            merged.heap[key] = Ite(guard, t_after, t_before)
+                    st = merged
+                    continue
+                st = self._havoc_item(st, item)
+        return st
+
+    def _havoc_item(self, st, item):
+        if True:
+            if True:
                 kind = item[0]
                 if kind == "field*":
                     st = self.havoc_whole_field(st, item[1], item[2])
@@ -517,6 +577,7 @@ class CallMixin:
                     raise Unsupported(f"location kind {kind}")
         return st
 
+
     # ---- builtins ----------------------------------------------------------------------------------------------
     def call_builtin(self, st, name, args, kwargs, k, where, node=None):
         from . import models
@@ -525,9 +586,62 @@ class CallMixin:
             raise Unsupported(f"builtin {name} at {where}")
         return h(self, st, args, kwargs, k, where)
 
+    def listcomp(self, st, e: ast.ListComp, k):
+        """List comprehension over a sequence whose length is fixed by the program text (unrolled)."""
+        if len(e.generators) != 1 or e.generators[0].is_async:
+            raise Unsupported("nested comprehension")
+        g = e.generators[0]
+
+        def got_iter(s2, it):
+            items = self.static_items_of(s2, it)
+            if items is None:
+                hk = self.reg.specfns.get("listcomp_symbolic")
+                if hk is not None:
+                    return hk(self, s2, e, it, k)
+                raise Unsupported(f"comprehension over a symbolic sequence at line {e.lineno}")
+            saved = dict(s2.locals)
+
+            def step(s3, idx, acc):
+                if idx == len(items):
+                    s4 = s3.copy()
+                    s4.locals = dict(saved)
+                    ek = acc[0].kind if acc else K_ANY
+                    hint = self.kind_hints.get((self.cur_func_name, e.lineno))
+                    if hint:
+                        ek = parse_kind(hint).elem
+                    seq = seq_concat(*[seq_unit(self.comp1(v, ek)) for v in acc]) if acc else \
+                        seq_empty(f"(Seq {elem_sort(ek)})")
+                    s5, lst = self.new_list(s4, ek, seq)
+                    return k(s5, lst)
+                outs = []
+                for a in self.assign(s3, g.target, items[idx]):
+                    if a.kind != "ok":
+                        outs.append(a)
+                        continue
+
+                    def conds(s4, ci):
+                        if ci == len(g.ifs):
+                            return self.ev(s4, e.elt, lambda s5, v: step(s5, idx + 1, acc + [v]))
+
+                        def gotc(s5, c):
+                            t = self.truthy(s5, c)
+                            o2 = []
+                            if t.s != "false":
+                                o2 += conds(s5.assume(t), ci + 1)
+                            if t.s != "true":
+                                o2 += step(s5.assume(Not(t)), idx + 1, acc)
+                            return o2
+                        return self.ev(s4, g.ifs[ci], gotc)
+                    outs += conds(a.st, 0)
+                return outs
+            return step(s2, 0, [])
+        return self.ev(st, g.iter, got_iter)
+
     def call_builtin_method(self, st, base, name, args, kwargs, k, where):
         from . import models
         tname = type(base).__name__
+        if isinstance(base, VPy):
+            tname = base.what
         h = models.METHODS.get((tname, name))
         if h is None:
             raise Unsupported(f"method {tname}.{name} at {where}")
